@@ -5,6 +5,7 @@ import ClipperVerif.Driver.Region
 import ClipperVerif.Driver.C05
 import ClipperVerif.Driver.C02
 import ClipperVerif.Driver.Ael
+import ClipperVerif.Driver.AelSides
 import ClipperVerif.Driver.C11
 import ClipperVerif.Driver.C06
 import ClipperVerif.Driver.C07
@@ -31,6 +32,7 @@ def handlers : List (String → Option (P String)) := [
   C05.handle,
   C02.handle,
   Ael.handle,
+  AelSides.handle,
   C11.handle,
   C06.handle,
   C07.handle,
